@@ -5,7 +5,7 @@ from .c05 import env_of
 
 PLAN = {
     "quick": {"shards": 8, "cases": 700, "min_nontrivial": 2500, "budget_s": 300},
-    "thorough": {"shards": 16, "cases": 4500, "min_nontrivial": 25000, "budget_s": 1500},
+    "thorough": {"shards": 16, "cases": 10000, "min_nontrivial": 56000, "budget_s": 1500},
 }
 RULE = ("schemas with constant, callable and absent defaults on every field family at depth <= 3 (typed lists/dicts "
         "wrapped, challenge defaults hashed, sub-configurations rebuilt); (1) two fresh configurations: every field "
